@@ -132,6 +132,11 @@ func ruleC09_3(c *Ctx, r *Rep) {
 					continue
 				}
 				commit, isHook := commitHook(f)
+				if !isHook && calledOnlyAfterCommit(c, f) {
+					hooks[f] = true
+					r.OK("C09.3", key, ci.Pos(), "callback invoked only from a commit hook after Commit returned nil")
+					continue
+				}
 				if !isHook {
 					r.Fail("C09.3", key, ci.Pos(), "waiters are woken outside an on-commit hook: a consumer can be notified of a change that is later rolled back (or before it is visible)")
 					continue
@@ -804,4 +809,122 @@ func ruleC09_1(c *Ctx, r *Rep) {
 		}
 	}
 	r.Floor("C09.1", n, 60)
+}
+
+// C09.6: an action's Execute must be re-executable: a transaction runner with retry (DoCtxTxRetry) calls it again
+// after a rolled-back attempt. Write-backs of resolved ids/names into the parameters are fine; an update of a
+// parameter from ITS OWN previous value (re-slicing, appending, counting down) makes the retry a different operation.
+func ruleC09_6(c *Ctx, r *Rep) {
+	n := 0
+	for _, f := range c.Funcs {
+		if c.PkgOf(f) != "actions" || top(f).Name() != "Execute" && top(f).Name() != "execute" {
+			continue
+		}
+		for _, b := range f.Blocks {
+			for _, in := range b.Instrs {
+				st, ok := in.(*ssa.Store)
+				if !ok {
+					continue
+				}
+				fa, ok := st.Addr.(*ssa.FieldAddr)
+				if !ok {
+					continue
+				}
+				k := valKey(fa)
+				if !strings.Contains(k, ".params.") {
+					continue
+				}
+				n++
+				self := false
+				for s := range sources(st.Val) {
+					if s == "path:"+k {
+						self = true
+					}
+				}
+				r.Check("C09.6", fmt.Sprintf("C09.6:param-store#%d@%s", n, c.Key(top(f))), st.Pos(), !self, "write-back of a resolved value",
+					"Execute rewrites its own parameter "+k[strings.Index(k, ".params."):]+" from its previous value: when the transaction is rolled back and the runner retries, the second attempt is a different (smaller) operation, yet reports success")
+			}
+		}
+	}
+	r.Floor("C09.6", n, 4)
+}
+
+// calledOnlyAfterCommit: closure f is handed (as an argument) to a helper whose corresponding parameter is invoked
+// only inside commit hooks, after the wrapped Commit returned nil.
+func calledOnlyAfterCommit(c *Ctx, f *ssa.Function) bool {
+	mc := makeClosureOf(f)
+	var fv ssa.Value
+	if mc != nil {
+		fv = mc
+	}
+	par := f.Parent()
+	if par == nil {
+		return false
+	}
+	found := false
+	for _, b := range par.Blocks {
+		for _, in := range b.Instrs {
+			call, ok := in.(*ssa.Call)
+			if !ok {
+				continue
+			}
+			h := call.Call.StaticCallee()
+			if h == nil || !c.inModule(h) {
+				continue
+			}
+			for i, a := range call.Call.Args {
+				if !((fv != nil && strip(a) == fv) || funcOf(a) == f) {
+					continue
+				}
+				if i >= len(h.Params) {
+					return false
+				}
+				if !paramInvokedOnlyAfterCommit(h, h.Params[i]) {
+					return false
+				}
+				found = true
+			}
+		}
+	}
+	return found
+}
+
+func paramInvokedOnlyAfterCommit(h *ssa.Function, p *ssa.Parameter) bool {
+	n := 0
+	ok := true
+	var walk func(f *ssa.Function)
+	walk = func(f *ssa.Function) {
+		for _, b := range f.Blocks {
+			for _, in := range b.Instrs {
+				call, isC := in.(*ssa.Call)
+				if !isC || call.Call.IsInvoke() || call.Call.StaticCallee() != nil {
+					continue
+				}
+				// the called value resolves to the parameter (directly or through captured cells)
+				v := resolve(call.Call.Value)
+				for i := 0; i < 5; i++ {
+					if fvv, isFV := v.(*ssa.FreeVar); isFV {
+						if bnd := freeVarBinding(fvv); bnd != nil {
+							v = resolve(bnd)
+							continue
+						}
+					}
+					break
+				}
+				if v != ssa.Value(p) {
+					continue
+				}
+				n++
+				commit, isHook := commitHook(f)
+				if !isHook || !afterSuccessfulCommit(commit, in) {
+					ok = false
+				}
+			}
+		}
+		for _, a := range f.AnonFuncs {
+			walk(a)
+		}
+	}
+	walk(h)
+	return ok && n > 0
 }
